@@ -100,9 +100,13 @@ def run(ctx):
             law("DM(-D)oDM(D)=id", a.signal, sig.signal)
             law("DM(D1)oDM(D2)=DM(D1+D2)", DM(DM(sig, D2), D1).signal, DM(sig, D1 + D2).signal)
             L = rnd.uniform(0.1, 80)
-            law("FIBER(L,b2)=DM(b2*L)", FIBER(sig, L, beta_2=D1 / L).signal, DM(sig, D1).signal)
             L2 = rnd.uniform(0.1, 80)
+            if it % 6 == 5:
+                L, L2 = rnd.uniform(1e-4, 9e-4), rnd.uniform(1e-4, 6e-4)        # spans of centimetres to a metre (femtosecond-pulse set-ups)
+            law("FIBER(L,b2)=DM(b2*L)", FIBER(sig, L, beta_2=D1 / L).signal, DM(sig, D1).signal)
             al, b2, b3 = rnd.choice([0, 0.2, 0.5]), rnd.uniform(-25, 25) * rnd.choice([0, 1, 1]), rnd.uniform(-0.2, 0.2) * rnd.choice([0, 1])
+            if it % 6 == 5:
+                b2, b3 = D2 / (L + L2), rnd.choice([0, 1]) * D2 * 1e-2 / (L + L2)           # dispersion that matters over such a span
             if it % 10 == 9:
                 al = [2.0, 3.0, 1.5][(it // 10) % 3]                # a very lossy span: 100 .. 480 dB in total
             two = FIBER(FIBER(sig, L, al, b2, b3), L2, al, b2, b3)
